@@ -467,7 +467,9 @@ class RuntimeContext:
     ):
         # err = Error(e)
         self.errors.append(e)
-        if force_raise or not self.options.collect_errors:
+        if force_raise or self.force_error or not self.options.collect_errors:
+            # a context made with force_error=True (attribute / item assignment) has no later point
+            # at which collected errors would be raised
             raise e
 
         if (
